@@ -92,28 +92,31 @@ def inputs_for(plan, idx, tier, rng):
             x["n"] = min(x["n"], (40 if ds < (1 << 24) else 12) * bs + 1)
     return out
 
-SRF_OK_ENTRIES = ("easy", "stream", "stream_mt", "block", "stream_buffer", "block_buffer", "raw2", "raw_buffer")
+SRF_FLUSHABLE = ("stream", "raw2", "block")
 
 def srf_jobs(plans, tier, rng, per_plan):
-    """Chunk-boundary adversary (EncWindow!UncompressedFits): for TLC plans that use the optimal parser, the start of the
-    look-ahead run F is swept over every position where an incompressible LZMA2 chunk can end (step 64 over
-    [59000, 66600]: the compressed limit minus any reserve up to the limit itself).  Plans are used as emitted except that
-    the dictionary is raised to hold S|F and the chain is plain LZMA2 (other filters destroy the match structure)."""
+    """Chunk-boundary adversary (EncWindow!UncompressedFits).  Input S|R|F (encrun.gen_input 'srf') with LZMA_SYNC_FLUSH
+    after S, so the chunk under test starts at R; the start of the look-ahead run F is swept over every offset where an
+    incompressible chunk can end (step 64 over [59000, 66600]: compressed limit minus any reserve, up to the limit).
+    TLC's plans that use the optimal parser (mode normal, nice_len 32/273) are taken as emitted except: plain LZMA2
+    chain (other filters destroy the match structure), dictionary >= 1 MiB so that S is reachable from F, one flush, and
+    an entry point that can flush (raw2 when the plan's cannot)."""
     quick = tier == "quick"
-    elig = [p for p in plans if p["entry"] in SRF_OK_ENTRIES and p.get("mode") == "normal" and p.get("nice") in ("32", "273")
-            and not (p["entry"] == "stream_mt" and (p.get("mtpreset") or int(p.get("bsize", 0) or 0)))]
-    elig.sort(key=lambda p: (p.get("nice") != "273", p.get("mf") not in ("bt4", "hc4")))
+    elig = [p for p in plans if p["entry"] not in ("easy", "easy_buffer", "alone", "raw1", "raw1_buffer", "microlzma")
+            and p.get("mode") == "normal" and p.get("nice") in ("32", "273") and not p.get("mtpreset")]
+    elig.sort(key=lambda p: (p["entry"] not in SRF_FLUSHABLE, p.get("nice") != "273", p.get("mf") not in ("bt4", "hc4")))
     chosen = elig[:3 if quick else 8]
     jobs = []
     for pi, p in enumerate(chosen):
-        q = dict(p, chain="lzma2", flush="none", update="none", history="fresh", pdict="no")
-        if q.get("dict") in ("4096", "8192", "4097", "16384", "32768"):
-            q["dict"] = "65536"
+        q = dict(p, chain="lzma2", flush="sync", update="none", history="fresh", pdict="no", cuts=[E.SRF_SLEN], oslice="whole")
+        if q["entry"] not in SRF_FLUSHABLE:
+            q["entry"] = "raw2"
+        if q.get("dict") != "dflt" and int(q["dict"]) < (1 << 20):
+            q["dict"] = "1048577"
         step = 64
         off = rng.randrange(step)
-        tl = 5000; sl = ((tl - 8) // 4 + 1) * 12
-        for fstart in range(59000 + off, 66600, step):
-            jobs.append((q, dict(kind="srf", n=fstart + tl, period=fstart - sl, tag="chunk-boundary-sweep", heavy=True)))
+        for x in range(59000 + off, 66600, step):
+            jobs.append((q, dict(kind="srf", n=E.SRF_SLEN + x + E.SRF_TLEN, period=x, tag="chunk-boundary-sweep", heavy=True)))
     return jobs
 
 def bias_values(n, ds, rng, quick, heavy=False):
